@@ -763,6 +763,7 @@ protected:
 
       std::string headerSection = dataStr.substr(0, headerEnd);
       std::size_t contentLength = 0;
+      bool haveContentLength = false;
       bool isChunked = false;
 
       // Parse headers
@@ -794,7 +795,21 @@ protected:
           {
             try
             {
-              contentLength = std::stoull(value);
+              // RFC 9112 §6.3: Content-Length = 1*DIGIT. std::stoull alone accepts a
+              // sign, leading whitespace and trailing junk ("+5", "5abc", "5 ,6");
+              // a repeated field with a different value is a framing conflict.
+              if (value.empty() || value.size() > 19 ||
+                  value.find_first_not_of("0123456789") != std::string::npos)
+              {
+                throw std::invalid_argument("Content-Length is not 1*DIGIT");
+              }
+              const std::size_t parsedLength = std::stoull(value);
+              if (haveContentLength && parsedLength != contentLength)
+              {
+                throw std::invalid_argument("conflicting Content-Length fields");
+              }
+              haveContentLength = true;
+              contentLength = parsedLength;
               if (contentLength > SessionInfo::MAX_BODY_SIZE)
               {
                 iora::core::Logger::error("HttpServer: Body size limit exceeded for session " +
